@@ -1808,6 +1808,9 @@ class OR(LogicalOperator, ABC):
         if child is self.left:
             if when_false or (when_false is None):
                 required_vars.update(self.right._unique_variables_)
+                # when the left side is false the right side may conclude, with the variables of its conclusions.
+                for conc in self.right._conclusion_.union(self.right._conclusions_of_all_descendants_):
+                    required_vars.update(conc._unique_variables_)
                 when_iam = None
             else:
                 when_iam = True
